@@ -25,3 +25,18 @@ package crypto
 
 //@ func (*Ed25519PrivateKey).Sign
 //@   ensures ret1 == nil && content(ret0) == edSign(k.k, msg)
+
+// Type invariant of Ed25519 key objects (established by every constructor): the
+// private key holds 64 bytes, the public key 32.
+//@ spec fun privKeyOK(k iface) bool = istype(k, ptr(Ed25519PrivateKey)) ==> unboxed(k, ptr(Ed25519PrivateKey)) != nil && len(unboxed(k, ptr(Ed25519PrivateKey)).k) == 64
+//@ spec fun pubKeyOK(k iface) bool = istype(k, ptr(Ed25519PublicKey)) ==> unboxed(k, ptr(Ed25519PublicKey)) != nil && len(unboxed(k, ptr(Ed25519PublicKey)).k) == 32
+
+//@ func PrivKeyToStdKey
+//@   nilable priv
+//@   requires privKeyOK(priv)
+//@   ensures ret1 == nil ==> istype(ret0, ptr(ed25519.PrivateKey)) && unboxed(ret0, ptr(ed25519.PrivateKey)) != nil && len(deref(unboxed(ret0, ptr(ed25519.PrivateKey)))) == 64
+
+//@ func PubKeyToStdKey
+//@   nilable pub
+//@   requires pubKeyOK(pub)
+//@   ensures ret1 == nil ==> istype(ret0, ed25519.PublicKey) && len(unboxed(ret0, ed25519.PublicKey)) == 32
